@@ -18,6 +18,12 @@ Enumerated space
      thorough = every one of the 2^10 (2^11 for always-present sections) combinations
   C  for 32 representative payloads: byte substitutions at every offset (quick: 5 values -- 0x00, 0xff, b^1, b^0x80,
      b+1; thorough: all 255 other values), every proper prefix (truncation), three one-byte extensions
+  G  degenerate section contents, wire-first through the reference encoder (the domain "what the template accepts" may
+     grow on one side only): for every section whose extent comes from a length prefix, a terminator, a fixed size or
+     EOF -- TextureAnim, TextureEntry, ScratchPad (U32 length), Text, MediaURL, NameValue (NUL terminated), PSBlock (86),
+     PSBlockNew (to EOF), every ExtraParams entry (U32 length) and the ExtraParams count -- the contents zero-length, one
+     byte, length-1, exact, length+1 (prefix and blob kept consistent, so the rest of the payload stays aligned), under the
+     section alone and all sections (thorough: the 22-24 combination cover); judged like C (well-formed => must agree)
   D  the representative payloads written to a viewer object-cache (.slc) file in a private temporary directory and
      read back through ``RegionViewerObjectCache`` (cache path hands the normaliser the very same bytes)
 
@@ -307,13 +313,15 @@ def wire_state(pcode: Any, state: Any) -> int:
     return st
 
 
-def encode(d: dict) -> Tuple[bytes, List[Tuple[int, str]]]:
+def encode(d: dict, raw: Optional[Dict[str, bytes]] = None) -> Tuple[bytes, List[Tuple[int, str]]]:
     """Reference wire encoder: (payload, [(start offset, top-level member)]).  Fixed-layout parts and the simple sections are
     packed by hand; only TextureEntry, ExtraParams and the particle blocks go through the shared sub-templates."""
     buf = bytearray()
     tops: List[Tuple[int, str]] = []
 
     def put(member: str, data: bytes):
+        if raw and member in raw:  # wire-first: these exact bytes stand where the member's section would be
+            data = raw[member]
         tops.append((len(buf), member))
         buf.extend(data)
 
@@ -857,6 +865,87 @@ def substitutions(b: int, thorough: bool) -> List[int]:
         if v != b and v not in out:
             out.append(v)
     return out
+
+
+# ------------------------------------------------------------------------------- G: degenerate section contents
+# (member, enabling flag, kind): every section whose extent is given by a length prefix, a terminator, a fixed size or EOF
+DEGENERATE_SECTIONS = (("TextureAnim", "TEXTURE_ANIM", "u32"), ("TextureEntry", None, "u32"), ("ScratchPad", "SCRATCHPAD", "u32"),
+                       ("Text", "TEXT", "cstr"), ("MediaURL", "MEDIA_URL", "cstr"), ("NameValue", "NAME_VALUES", "cstr"),
+                       ("PSBlock", "PARTICLES", "sized"), ("PSBlockNew", "PARTICLES_NEW", "sized"), ("ExtraParams", None, "extra"))
+
+
+def _u32_variants(blob: bytes) -> List[Tuple[str, bytes]]:
+    n = len(blob)
+    pre = lambda k: struct.pack("<I", k)  # noqa: E731
+    out = [("len-0", pre(0)), ("len-1-first-byte", pre(1) + blob[:1]), ("len-1-zero", pre(1) + b"\x00"), ("len-1-ff", pre(1) + b"\xff"),
+           ("exact", pre(n) + blob), ("len+1-zero", pre(n + 1) + blob + b"\x00"), ("len+1-ff", pre(n + 1) + blob + b"\xff")]
+    if n >= 2:
+        out.append(("len-minus-1", pre(n - 1) + blob[:n - 1]))
+    return out
+
+
+def degenerate_variants(member: str, kind: str, base: bytes) -> List[Tuple[str, bytes]]:
+    """Wire-first contents for one section; ``base`` = the section's bytes in the baseline payload (prefix / terminator included)."""
+    if kind == "u32":
+        out = _u32_variants(base[4:])
+        if member == "TextureEntry":  # a second, richer blob
+            out += [("exceptions:" + n, b) for n, b in _u32_variants(_shared("TextureEntry", tmpls.TE_SERIALIZER, te_exceptions()))]
+        return out
+    if kind == "cstr":
+        body = base[:-1]
+        out = [("empty", b"\x00"), ("one-char", body[:1] + b"\x00"), ("exact", body + b"\x00"), ("plus-one-char", body + b"x\x00"),
+               ("minus-one-char", body[:-1] + b"\x00")]
+        if member == "NameValue":
+            out += [("trailing-newline", body + b"\n\x00"), ("only-newline", b"\n\x00"), ("name-only", b"FirstName\x00"),
+                    ("four-fields", b"FirstName STRING RW DS\x00"), ("four-fields-space", b"FirstName STRING RW DS \x00")]
+        return out
+    if kind == "sized":
+        n = len(base)
+        out = [("0-bytes", b""), ("1-byte", base[:1]), ("minus-1", base[:n - 1]), ("exact", base), ("plus-1-zero", base + b"\x00"),
+               ("plus-1-ff", base + b"\xff")]
+        if member == "PSBlockNew":
+            legacy = _shared("PSBlockNew", tmpls.PSBLOCK_TEMPLATE, ps_legacy())
+            out += [("legacy-85", legacy[:85]), ("legacy-86", legacy), ("legacy-87", legacy + b"\x00")]
+        return out
+    # ExtraParams: U8 count, then per entry U16 type, U32 length, blob
+    out = [("count-0", b"\x00"), ("count-1-no-entry", b"\x01"), ("count-255-no-entry", b"\xff")]
+    for name in ("flexible", "flexible-userforce", "light", "sculpt", "light-image", "mesh", "extended-mesh", "render-material-0",
+                 "render-material-2", "reflection-probe"):
+        coll = _shared("ExtraParams", tmpls.EXTRA_PARAM_COLLECTION, EXTRA[name])
+        head, blob = coll[:3], coll[7:]
+        out += [(f"{name}:{n}", head + b) for n, b in _u32_variants(blob)]
+        out.append((f"{name}:count-2-one-entry", b"\x02" + coll[1:]))
+    return out
+
+
+def _work_degenerate(si: int):
+    part = Part()
+    member, flagname, kind = DEGENERATE_SECTIONS[si]
+    req = FLAG_VALUE[flagname] if flagname else None
+    covers = flag_cover(req, False) if _THOROUGH else [req or 0, ALL_FLAGS]
+    for flags in covers:
+        pc = tmpls.PCode.PRIMITIVE
+        try:
+            d = build(flags, pc, None)
+            base_p, base_tops = encode(d)
+            i = next(j for j, (_, m) in enumerate(base_tops) if m == member)
+            end = base_tops[i + 1][0] if i + 1 < len(base_tops) else len(base_p)
+            variants = degenerate_variants(member, kind, base_p[base_tops[i][0]:end])
+        except GenFailure as e:
+            gen_failure_violation(part, e, f"G {member} flags={flags:#x}", {"family": "G", "member": member, "flags": flags})
+            continue
+        for label, rawbytes in variants:
+            q, _ = encode(d, {member: rawbytes})
+            w = {"kind": "payload", "origin": "mutated", "hex": q.hex(), "case": f"G degenerate ({member}) {label} flags={flags:#x}"}
+            res = judge(part, q, "mutated", member, w)
+            part.count("G_degenerate_sections")
+            part.outcome(("G", member, label, flags, res))
+            if res in ("ok", "violation"):
+                part.count("G_degenerate_wellformed")
+                part.mark_nontrivial(("G", member, label, flags))
+            if flags == (req or 0) and label in ("len-0", "empty", "0-bytes", "count-0"):
+                part.sample({"case": w["case"], "payload_len": len(q), "result": res}, limit=1)
+    return part.dump()
 
 
 def _work_mutate(item: Tuple[int, int, int]):
@@ -1458,6 +1547,8 @@ def run(run: Run):
             items.append((ri, lo, min(lo + step, len(p))))
     for d in pmap(_work_mutate, items, run.jobs):
         run.merge(d)
+    for d in pmap(_work_degenerate, list(range(len(DEGENERATE_SECTIONS))), run.jobs, chunksize=1):
+        run.merge(d)
     check_cache_path(run, _REPS)
     for d in fresh_process_map(_work_history, [(hi, src) for hi in range(len(_HIST)) for src in SOURCES], run.jobs):
         run.merge(d)
@@ -1494,7 +1585,9 @@ def run(run: Run):
         "legacy and variable particle blocks incl. glow/blend and empty; TextureEntry none/default/exceptions/multi-byte face masks/no "
         "materials; TextureAnim; sound; header extremes, NaN/inf/-0.0, unknown flag bits), each under %s flag combinations that enable its "
         "section; State: %s wire values x 6 PCodes; C: %s single-byte substitutions at every offset, every truncation and 3 one-byte "
-        "extensions of %d representative payloads (%d bytes); D: the representatives through a .slc cache file; E: %d decode histories (%d payloads x 3 source decoders: decode, deep in-place "
+        "extensions of %d representative payloads (%d bytes); G: %d degenerate section contents (zero / one byte / length-1 / exact / length+1 for "
+        "every length-prefixed, terminated, fixed-size or to-EOF section and every ExtraParams entry, built wire-first), %d of them "
+        "well-formed; D: the representatives through a .slc cache file; E: %d decode histories (%d payloads x 3 source decoders: decode, deep in-place "
         "edit of the result, then fast / template / normaliser / normaliser-over-cache-file decode the same payload, a twin and a "
         "shifted payload sharing its section bytes; one forked process per history); F: %d encode histories (one per payload and process): "
         "%d failed encodes (every template member x out-of-domain values that make template.serialize raise after >= 1 byte, plus 4 "
@@ -1503,7 +1596,8 @@ def run(run: Run):
         "distinct well-formed (case, flags, pcode | representative, offset, value) inputs on which both decoders were compared"
         % (1 << len(FLAG_LIST), len(PCODES), len(_FACTORS), "all 2^10/2^11" if _THOROUGH else "22-24 covering (alone, all, +1, all-1)",
            "all 256" if _THOROUGH else str(len(STATE_ALPHABET_QUICK)), "all 255" if _THOROUGH else "5",
-           len(_REPS), sum(len(p) for _, p, _ in _REPS), len(_HIST) * len(SOURCES), len(_HIST),
+           len(_REPS), sum(len(p) for _, p, _ in _REPS), c.get("G_degenerate_sections", 0), c.get("G_degenerate_wellformed", 0),
+           len(_HIST) * len(SOURCES), len(_HIST),
            len(_HIST), c.get("F_failed_encodes", 0), c.get("F_checks", 0)))
     run.assumptions += [
         "domain = payloads the template's own serialize emits from generated dicts, plus single-byte substitutions / truncations / "
